@@ -43,7 +43,7 @@ impl Prop for C28 {
     fn runs(tier: Tier) -> u64 {
         match tier {
             Tier::Quick => 150_000,
-            Tier::Thorough => 10_000_000,
+            Tier::Thorough => 15_000_000,
         }
     }
     fn gen(r: &mut SplitMix, _t: Tier, _i: u64) -> Scn {
